@@ -376,12 +376,23 @@ class Ctx(object):
         else:
             r = self._check(z3.Not(e))
             m = self._last_model if r == 'sat' else None
+        small = True
+        if r == 'sat' and self.sizes:
+            # prefer a counterexample whose sizes can be replayed concretely
+            lim = z3.And(z3.BoolVal(True) if z3.is_false(e) else z3.Not(e), *[s <= self.small_limit for s in self.sizes])
+            r2 = self._check(lim)
+            if r2 == 'sat':
+                m = self._last_model
+            else:
+                small = False
         if r == 'unsat':
             self.stats.discharged += 1
             return True
         if r == 'sat':
             self.stats.violations += 1
-            self.violations.append(Violation(label, _plain(detail, m), self.model_inputs(m), list(self.trail[:self.pos])))
+            v = Violation(label, _plain(detail, m), self.model_inputs(m), list(self.trail[:self.pos]))
+            v.small = small
+            self.violations.append(v)
             return False
         self.stats.inconclusive += 1
         self.notes.append('inconclusive obligation %s' % label)
@@ -412,9 +423,12 @@ class Ctx(object):
         assert self.mode == 'sym'
         self.stack = [[]]
         results = []
+        t_end = time.time() + self.max_seconds if getattr(self, 'max_seconds', None) else None
         while self.stack:
             if self.stats.paths >= self.max_paths:
                 raise Inconclusive('more than %d paths' % self.max_paths)
+            if t_end is not None and time.time() > t_end:
+                raise Inconclusive('case exceeded its time budget of %ds after %d paths' % (self.max_seconds, self.stats.paths))
             prefix = self.stack.pop()
             self.trail = list(prefix)
             self.pos = 0
